@@ -91,11 +91,11 @@ def serial_monitor(log, root_keys, open_gate_labels_at):
     return problems, checked
 
 
-def one_schedule(schema, doc, variables, value_fn, seed, p_async, policy, script=None, tof=False):
+def one_schedule(schema, doc, variables, value_fn, seed, p_async, policy, script=None, tof=False, overlap=None):
     rng = random.Random(seed)
     sched = Scheduler(rng, policy=policy, script=script)
     run = Run(sched)
-    hz = Harness(sched, value_fn, seed, p_async=p_async, schema=schema, hide_typename=tof, p_type_async=0.5 if tof else 0.3)
+    hz = Harness(sched, value_fn, seed, p_async=p_async, schema=schema, hide_typename=tof, p_type_async=0.5 if tof else 0.3, overlap=overlap)
     aharness._current[0] = hz
 
     async def main():
@@ -134,8 +134,12 @@ def check_request(ctx, seed, k):
     variables = g.variables()
     fault = [0.0, 0.08][seed % 2]
     value_fn = make_value(schema, seed, fault)
+    ovl = None
     if tof:
-        hz0 = Harness(None, value_fn, seed, sync_only=True, hide_typename=True)
+        ovl = seed if seed % 2 else None      # half of these requests: some values satisfy the is_type_of of two possible types
+        if ovl is not None:
+            ctx.count("requests_with_values_matching_two_possible_types")
+        hz0 = Harness(None, value_fn, seed, sync_only=True, hide_typename=True, overlap=ovl)
         aharness._current[0] = hz0
         base = execute_sync(schema, doc, None, variable_values=variables, field_resolver=hz0.resolver)
     else:
@@ -160,6 +164,10 @@ def check_request(ctx, seed, k):
         ctx.count("data_compared_with_sync_run")
         if json.dumps(res.data, sort_keys=True) != base_json:
             mech = "data-depends-on-schedule"
+            if getattr(hz, 'mixed_overlap', False):
+                # a value matching two possible types whose is_type_of checks were partly synchronous, partly awaitable: a
+                # synchronous match of a later type is taken at once, without waiting for the pending check of an earlier one
+                mech += ":overlapping-is-type-of-with-mixed-sync-and-awaitable-checks"
             if len(c02._memo_bad) > judge.nbad:
                 mech = "sub-field-memo:wrong-hit"
             ctx.violation(mech, {"source": src[:600], "sync": base_json[:400], "async": json.dumps(res.data, sort_keys=True)[:400], "trace": sched.trace[:12]}, case)
@@ -253,7 +261,7 @@ def check_request(ctx, seed, k):
         s2 = seed * 100 + j
         case = {**case0, "schedule_seed": s2, "p_async": p_async, "policy": pol}
         ctx.case()
-        run, hz, sched, pending = one_schedule(schema, doc, variables, value_fn, s2, p_async, pol, tof=tof)
+        run, hz, sched, pending = one_schedule(schema, doc, variables, value_fn, s2, p_async, pol, tof=tof, overlap=ovl)
         try:
             judge.nbad = judge.nbad
             judge(run, hz, sched, pending, case)
@@ -264,7 +272,7 @@ def check_request(ctx, seed, k):
         # exhaustive orders when the run is small
         if j == 2 and 2 <= len(sched.trace) <= 5:
             def with_script(script, s2=s2, p_async=p_async):
-                run2, hz2, sched2, pend2 = one_schedule(schema, doc, variables, value_fn, s2, p_async, 'scripted', script, tof=tof)
+                run2, hz2, sched2, pend2 = one_schedule(schema, doc, variables, value_fn, s2, p_async, 'scripted', script, tof=tof, overlap=ovl)
                 try:
                     ctx.case()
                     judge(run2, hz2, sched2, pend2, {**case0, "schedule_seed": s2, "p_async": p_async, "policy": "scripted", "script": script})
